@@ -53,7 +53,10 @@ fn classify(e: &(dyn std::error::Error + 'static)) -> (Class, Option<io::ErrorKi
     } else if e.downcast_ref::<CustomErr>().is_some() {
         (Class::Custom, None)
     } else if let Some(io) = e.downcast_ref::<io::Error>() {
-        if io.kind() == io::ErrorKind::NotFound {
+        if io.kind() == io::ErrorKind::InvalidInput {
+            // only the harness loader produces this kind (the source's faults never do)
+            (Class::Conversion, None)
+        } else if io.kind() == io::ErrorKind::NotFound {
             (Class::NotFound, Some(io.kind()))
         } else {
             (Class::IoOther, Some(io.kind()))
@@ -86,6 +89,11 @@ pub struct ExtLoader;
 impl<const N: usize> Loader<Ext<N>> for ExtLoader {
     fn load(content: Cow<[u8]>, ext: &str) -> Result<Ext<N>, BoxedError> {
         if content.first() == Some(&b'!') {
+            // a decoding failure may well be reported as an io::Error by the decoder ("!!..."): it still is the
+            // loader's error, not the source's
+            if content.get(1) == Some(&b'!') {
+                return Err(Box::new(io::Error::new(io::ErrorKind::InvalidInput, "undecodable (reported by the decoder as an io::Error)")));
+            }
             return Err(Box::new(DecodeErr));
         }
         Ok(Ext(format!("{ext:?}={}", render_bytes(&content))))
@@ -455,7 +463,13 @@ fn bytes_strategy(thorough: bool) -> impl Strategy<Value = Vec<u8>> {
                 s.into_bytes()
             }),
         // undecodable: starts with '!'
-        4 => prop::collection::vec(any::<u8>(), 0..10).prop_map(|mut v| { v.insert(0, b'!'); v }),
+        4 => (prop::collection::vec(any::<u8>(), 0..10), any::<bool>()).prop_map(|(mut v, io_flavour)| {
+            v.insert(0, b'!');
+            if io_flavour {
+                v.insert(0, b'!');
+            }
+            v
+        }),
         1 => (any::<u8>(), (big / 2)..big).prop_map(|(b, n)| (0..n).map(|i| b.wrapping_add((i % 251) as u8).max(b'"')).collect()),
     ]
 }
@@ -505,7 +519,7 @@ impl Prop for C03 {
     }
 
     fn assumptions(&self) -> Vec<String> {
-        vec!["the loader under test in the histories is a harness loader (decodes unless the first byte is '!'); sources deliver bytes through every FileContent variant; the built-in loaders are checked per content, not per history".into(), "'white space' in ParseLoader's documentation is taken to mean what str::trim removes (Unicode White_Space), as the pinned implementation does".into()]
+        vec!["the loader under test in the histories is a harness loader (decodes unless the first byte is '!'; a second '!' makes it report the failure as an io::Error, which still is a decoding error); sources deliver bytes through every FileContent variant; the built-in loaders are checked per content, not per history".into(), "'white space' in ParseLoader's documentation is taken to mean what str::trim removes (Unicode White_Space), as the pinned implementation does".into()]
     }
 
     fn plan(&self, tier: Tier) -> Plan {
